@@ -138,6 +138,29 @@ def _exec_harness(binp, jobs, outdir, tag, threads, timeout, stack_mb, mem_gb=No
 MAX_ATTRIBUTED_CRASHES = 6
 
 
+def _exec_chunked(binp, jobs, outdir, tag, threads, timeout, stack_mb, job_timeout_ms):
+    """interpreters are not reclaimed completely when dropped (closures and their frames refer to each other), so one
+    process is given a bounded amount of work: at most ~250k steps and ~20k interpreters"""
+    status, res = "ok", {}
+    start = 0
+    while start < len(jobs):
+        end, steps, news = start, 0, 0
+        while end < len(jobs):
+            st_ = jobs[end].get("steps", [])
+            n_ = sum(1 for x in st_ if x.get("op") == "new") or 1
+            if end > start and (steps + len(st_) > 250000 or news + n_ > 20000):
+                break
+            steps += len(st_) or 1; news += n_; end += 1
+        st, r = _exec_harness(binp, jobs[start:end], outdir, tag, threads, timeout, stack_mb, job_timeout_ms=job_timeout_ms)
+        for k, v in r.items():
+            v["idx"] = start + k; res[start + k] = v
+        if st != "ok":
+            status = st
+            log("[harness] %s: jobs %d..%d ended with %s (%d of %d results)" % (tag, start, end, st, len(r), end - start))
+        start = end
+    return status, res
+
+
 def run_jobs(jobs, outdir, tag="jobs", threads=None, timeout=600, per_job_timeout=15, stack_mb=64, job_timeout_ms=0):
     """Runs jobs on the real code. Returns one result per job, in order. A job that kills the
     process (native stack overflow, abort, memory exhaustion) or hangs is re-run alone and reported
@@ -148,20 +171,7 @@ def run_jobs(jobs, outdir, tag="jobs", threads=None, timeout=600, per_job_timeou
     binp = build_harness()
     os.makedirs(outdir, exist_ok=True)
     threads = threads or min(NCPU, 12)
-    # interpreters are not reclaimed completely when dropped (closures and their frames refer to each other), so a
-    # process is given a bounded amount of work: chunks of jobs holding at most ~250k steps
-    status, res = "ok", {}
-    start = 0
-    while start < len(jobs):
-        end, steps = start, 0
-        while end < len(jobs) and (end == start or steps + len(jobs[end].get("steps", [])) <= 250000):
-            steps += len(jobs[end].get("steps", [])) or 1; end += 1
-        st, r = _exec_harness(binp, jobs[start:end], outdir, tag, threads, timeout, stack_mb, job_timeout_ms=job_timeout_ms)
-        for k, v in r.items():
-            v["idx"] = start + k; res[start + k] = v
-        if st != "ok":
-            status = st
-        start = end
+    status, res = _exec_chunked(binp, jobs, outdir, tag, threads, timeout, stack_mb, job_timeout_ms)
     missing = [i for i in range(len(jobs)) if i not in res]
     if missing and status == "ok":
         raise ToolError("harness lost results without crashing")
@@ -173,8 +183,8 @@ def run_jobs(jobs, outdir, tag="jobs", threads=None, timeout=600, per_job_timeou
             # many missing: most were innocent bystanders of one crash; run them again together,
             # single-threaded chunks so that a crash loses little
             sub = [jobs[i] for i in missing]
-            st2, r2 = _exec_harness(binp, sub, outdir, tag + ".retry", 1 if rounds > 2 else max(1, threads // 2),
-                                    timeout, stack_mb, job_timeout_ms=job_timeout_ms)
+            st2, r2 = _exec_chunked(binp, sub, outdir, tag + ".retry", 1 if rounds > 2 else max(1, threads // 2),
+                                    timeout, stack_mb, job_timeout_ms)
             got = 0
             for k, i in enumerate(missing):
                 if k in r2:
